@@ -242,4 +242,32 @@ def dropSliceOverlappingElements (s : Sl) (other : Sl) (h : Option (Int → Int 
   | some l, some _, none => some ⟨l, l.length⟩
   | some l, some o, some c => some (compact (σ := Unit) (fun _ _ _ _ v => !inSlice o v c) (fun _ _ _ => ()) l ())
 
+/-! ## item.go, calc.go, map.go — the remaining helpers of the package (outside C17's anchor files) -/
+
+/-- `SwapSlice(&s, i, j)`: out-of-range indices are ignored -/
+def swapSlice (s : Sl) (i j : Int) : Option InPlace :=
+  s.map fun l =>
+    if i < 0 ∨ j < 0 ∨ i ≥ (l.length : Int) ∨ j ≥ (l.length : Int) then ⟨l, l.length⟩
+    else
+      let x := l.getD i.toNat 0
+      let y := l.getD j.toNat 0
+      -- `(*slice)[i], (*slice)[j] = (*slice)[j], (*slice)[i]`: both reads happen before both writes
+      ⟨(l.set i.toNat y).set j.toNat x, l.length⟩
+
+/-- `SliceSum(slice, handler)` with `handler(i, v)` -/
+def sliceSumFrom (h : Nat → Int → Int) : Nat → List Int → Int → Int
+  | _, [], acc => acc
+  | i, v :: l, acc => sliceSumFrom h (i + 1) l (acc + h i v)
+
+def sliceSum (s : Sl) (h : Nat → Int → Int) : Int := sliceSumFrom h 0 s.els 0
+
+/-- `MapSum(m, handler)` with `handler(k, v)`, in iteration order -/
+def mapSum (m : Mp) (h : Int → Int → Int) : Int := m.ents.foldl (fun acc e => acc + h e.1 e.2) 0
+
+/-- `MappingFromSlice(slice, handler)`: `nil` stays `nil` -/
+def mappingFromSlice (s : Sl) (h : Int → Int) : Sl := s.map (·.map h)
+
+/-- `MappingFromMap(m, handler)`: keys kept, values converted; `nil` stays `nil` -/
+def mappingFromMap (m : Mp) (h : Int → Int) : Mp := m.map (·.map fun e => (e.1, h e.2))
+
 end MV.Model.Coll
